@@ -5,6 +5,8 @@ import (
 	"encoding/hex"
 	"encoding/json"
 	"fmt"
+	glog "github.com/ChainSafe/gossamer/internal/log"
+	"io"
 	"os"
 	"os/exec"
 	"path/filepath"
@@ -48,19 +50,19 @@ func envInt(name string, def int64) int64 {
 
 // WorkerReport is what a worker process hands back to the orchestrator.
 type WorkerReport struct {
-	Runs       int                 `json:"runs"`
-	Steps      int64               `json:"steps"`
-	SimNanos   int64               `json:"sim_ns"`
-	Faults     map[string]int      `json:"faults"`
-	Probes     map[string]int      `json:"probes"`
-	FPs        []string            `json:"fps"` // fingerprints of non-trivial runs
-	AllFPs     int                 `json:"all_fps"`
-	Others     map[string]int      `json:"others"`
-	KnownHits  map[string]int      `json:"known_hits"`
-	Violations []ReplayFile        `json:"violations"`
-	Samples    []Sample            `json:"samples"`
-	Trouble    string              `json:"trouble,omitempty"`
-	Info       map[string]float64  `json:"info,omitempty"`
+	Runs       int                `json:"runs"`
+	Steps      int64              `json:"steps"`
+	SimNanos   int64              `json:"sim_ns"`
+	Faults     map[string]int     `json:"faults"`
+	Probes     map[string]int     `json:"probes"`
+	FPs        []string           `json:"fps"` // fingerprints of non-trivial runs
+	AllFPs     int                `json:"all_fps"`
+	Others     map[string]int     `json:"others"`
+	KnownHits  map[string]int     `json:"known_hits"`
+	Violations []ReplayFile       `json:"violations"`
+	Samples    []Sample           `json:"samples"`
+	Trouble    string             `json:"trouble,omitempty"`
+	Info       map[string]float64 `json:"info,omitempty"`
 }
 
 type Sample struct {
@@ -458,25 +460,25 @@ func runOrchestrator(t *testing.T, w World) int {
 		samples = append(samples, map[string]any{"note": "no non-trivial violation-free run was sampled"})
 	}
 	cov := map[string]any{
-		"evaluations":         total.Runs,
-		"distinct_nontrivial": len(fps),
-		"rule":                w.Rule(prop),
-		"samples":             samples,
-		"runs_per_hour":       int(float64(total.Runs) / wallS * 3600),
-		"seeds_per_hour":      int(float64(total.Runs) / wallS * 3600),
-		"simulated_time_s":    float64(total.SimNanos) / 1e9,
-		"events":              total.Steps,
-		"faults_fired":        total.Faults,
-		"probes":              total.Probes,
+		"evaluations":                    total.Runs,
+		"distinct_nontrivial":            len(fps),
+		"rule":                           w.Rule(prop),
+		"samples":                        samples,
+		"runs_per_hour":                  int(float64(total.Runs) / wallS * 3600),
+		"seeds_per_hour":                 int(float64(total.Runs) / wallS * 3600),
+		"simulated_time_s":               float64(total.SimNanos) / 1e9,
+		"events":                         total.Steps,
+		"faults_fired":                   total.Faults,
+		"probes":                         total.Probes,
 		"distinct_fingerprints_all_runs": allFPs,
-		"real_components":     real,
-		"stub_components":     stub,
-		"workers":             nw,
-		"run_index_range":     []int{0, next},
-		"known_findings_seen": len(seenKnown),
-		"known_finding_hits":  total.KnownHits,
-		"other_property_oracles_fired": total.Others,
-		"tree_rev":            rev,
+		"real_components":                real,
+		"stub_components":                stub,
+		"workers":                        nw,
+		"run_index_range":                []int{0, next},
+		"known_findings_seen":            len(seenKnown),
+		"known_finding_hits":             total.KnownHits,
+		"other_property_oracles_fired":   total.Others,
+		"tree_rev":                       rev,
 	}
 	for k, v := range total.Info {
 		cov["info_"+k] = v
@@ -582,6 +584,8 @@ func runDeterminism(t *testing.T, w World) int {
 
 // Main is called from each world's TestVerif.
 func Main(t *testing.T, w World) {
+	// gossamer's loggers write every finalisation, import and vote at Info level: silence them once per process
+	glog.Patch(glog.SetLevel(glog.Critical), glog.SetWriter(io.Discard))
 	mode := os.Getenv("VERIF_MODE")
 	switch mode {
 	case "worker":
